@@ -7,12 +7,14 @@
       write cache's directory (or an ancestor of it: mkdir -p; or a path the
       caller handed in; or the system temp directory) — so, the read-only roots
       being disjoint from those, never a path under a read-only root.
-    Descriptor-based effects on read-only entries are limited to the access time
-    by construction of the lookup/touch programs (futimens with mtime omitted);
-    the correspondence check enforces it on the implementation's traces and
-    snapshots. *)
+    In the kernel model, on every sequential run with any injected fault, the
+    read-only API and the stack's lookups and touches leave EVERY name bound as it
+    was and EVERY file's contents as they were
+    ([C15_read_only_api_changes_nothing], [C15_lookups_change_nothing]); with C09
+    (no modification time changes) what remains is the access time, which the
+    correspondence check follows on the implementation's traces and snapshots. *)
 From Coq Require Import List NArith ZArith String Bool.
-From Kismet Require Import FS.Fs FS.Prog Ops.Ops Spec.ClassMon Proofs.RejectProofs Spec.Confine Conc.Pool Proofs.PoolLift.
+From Kismet Require Import FS.Fs FS.Prog Ops.Ops Spec.ClassMon Proofs.RejectProofs Spec.Confine Conc.Pool Conc.Effect Proofs.PoolLift Proofs.ReadsInert.
 Import ListNotations.
 
 Definition no_mutating_path_call (tr : list event) : Prop :=
@@ -44,6 +46,25 @@ Proof.
   destruct (run _ w o) as [[[a w'] o'] tr]. destruct H as [_ H].
   eapply Forall_impl; [|exact H]. intros [] Hev; auto. apply nomut_empty, Hev.
 Qed.
+
+(** In the kernel model: names and contents, everywhere, are left as they were. *)
+Theorem C15_read_only_api_changes_nothing : forall stack chk k w o, chko_rd chk ->
+  (let '(_, w', _, _) := run (ro_get stack chk k) w o in
+   (forall x, name_of (w_fs w') x = name_of (w_fs w) x) /\
+   (forall i D, data (w_fs w) i = Some D -> i < next_ino (w_fs w) -> data (w_fs w') i = Some D)) /\
+  (let '(_, w', _, _) := run (ro_touch stack k) w o in
+   (forall x, name_of (w_fs w') x = name_of (w_fs w) x) /\
+   (forall i D, data (w_fs w) i = Some D -> i < next_ino (w_fs w) -> data (w_fs w') i = Some D)).
+Proof. intros stack chk k w o. exact (read_only_api_changes_nothing stack chk k w o). Qed.
+
+Theorem C15_lookups_change_nothing : forall cfg k w o, chko_rd (s_checker cfg) ->
+  (let '(_, w', _, _) := run (cache_get cfg k) w o in
+   (forall x, name_of (w_fs w') x = name_of (w_fs w) x) /\
+   (forall i D, data (w_fs w) i = Some D -> i < next_ino (w_fs w) -> data (w_fs w') i = Some D)) /\
+  (let '(_, w', _, _) := run (cache_touch cfg k) w o in
+   (forall x, name_of (w_fs w') x = name_of (w_fs w) x) /\
+   (forall i D, data (w_fs w) i = Some D -> i < next_ino (w_fs w) -> data (w_fs w') i = Some D)).
+Proof. intros cfg k w o. exact (reads_change_nothing cfg k w o). Qed.
 
 (** Stacked API: given that nothing allowed (write directory, its ancestors,
     caller paths) lies under a read-only root, no mutating path call does. *)
@@ -102,3 +123,8 @@ Proof.
   destruct (String.eqb_spec "r0" x) as [<-|]; [cbn in H; destruct p; discriminate|].
   destruct (String.eqb_spec "r1" x) as [<-|]; [cbn in H; destruct p; discriminate|]. reflexivity.
 Qed.
+
+(** The premise about the checker holds of the library's byte-equality checkers
+    and of the harness's counting checker. *)
+Theorem C15_checkers_only_read : chk_rd Ops.Client.chk_byteeq /\ chk_rd Ops.Client.chk_panic /\ (forall b, chk_rd (Ops.Client.chk_count b)).
+Proof. split; [exact chk_byteeq_rd|]. split; [exact chk_panic_rd|exact chk_count_rd]. Qed.
